@@ -68,6 +68,18 @@ Theorem C14_optimal : forall h w data barriers conn s g img,
 Proof. exact astar_goal_optimal. Qed.
 Print Assumptions C14_optimal.
 
+(* (A5, as seen in the output) EVERY non-NaN value of the returned raster — each cell of the path, not
+   only the goal — is the minimum cost over all routes from start to that cell *)
+Theorem C14_path_values_optimal : forall h w data barriers conn s g img,
+  inside h w s ->
+  astar_kernel xc_zero xc_add xc_sqrtZ xc_ofZ xc_ltb h w data barriers (offsets_of conn) s g = Done img ->
+  forall c v, img c = Some v ->
+    exists a b, v = (a, b, 0) /\ route h w data barriers (offsets_of conn) s c a b /\
+      forall a' b', route h w data barriers (offsets_of conn) s c a' b' ->
+        (IZR a + IZR b * sqrt 2 <= IZR a' + IZR b' * sqrt 2)%R /\ p2_ltb (a', b') (a, b) = false.
+Proof. exact astar_path_optimal. Qed.
+Print Assumptions C14_path_values_optimal.
+
 (* the "very big number" (height+width)**2 of _min_cost_pixel_id exceeds every cost of an open cell:
    with start and goal in the grid the search never reaches Stuck *)
 Theorem C14_never_stuck : forall h w data barriers conn s g,
